@@ -9,8 +9,70 @@
 From Coq Require Import ZArith List Sorted Permutation.
 From Batchie Require Import Lib.Sexp Model.Scores
   Proofs.C06Split Proofs.C06Rows Proofs.C06Select Proofs.C06Main.
+From Batchie Require Import Generated.SrcScoring Proofs.C06Source.
 Import ListNotations.
 Open Scope Z_scope.
+
+(* ---- the model is what the source says NOW ----
+   `src_select_next_plate` and `src_score_chunk` are the whole functions select_next_plate and score_chunk of
+   /repo's current batchie/scoring/main.py, re-translated statement by statement on every run (harness/py2gal.py
+   with the configurations C06_SELECT / C06_SCORE_CHUNK of harness/src_functions.py -> Generated/SrcScoring.v:
+   the default-argument tests, the comprehensions, the optional policy, the early `return`, the batch test, the
+   conditioning loop, the dict of plates, the holder-filling loop, every raise of the primitives).  They equal the
+   hand-written models for ALL arguments, so every theorem below is a theorem about the translated source.
+   Representation: batch_plate_ids None is the model's []; the code returns the Plate object
+   screen.get_plate(id) where the model returns the id. *)
+Theorem C06_model_is_source_select_next_plate : forall (scores : holder) (s : screen) (policy : option policy_t)
+    (batch : option (list Z)) (rng : option rng_t),
+  src_select_next_plate scores s policy batch rng
+  = dor r <- select_next policy s (match batch with Some b => b | None => [] end) scores;
+    Ok (option_map (get_plate s) r).
+Proof. exact src_select_next_plate_is_model. Qed.
+Print Assumptions C06_model_is_source_select_next_plate.
+
+(* the scorer is ANY function from the dict it is handed (plate id -> rows, in dict order) to the dict it returns;
+   the model's score_chunk is exactly what it is handed, chunk_holder_of_answer the holder built from its answer *)
+Theorem C06_model_is_source_score_chunk : forall (scorer : scorer_fn) (s : screen) (rng : option rng_t)
+    (n_chunks chunk_index : Z) (batch : option (list Z)),
+  src_score_chunk scorer s rng n_chunks chunk_index batch
+  = dor ps <- score_chunk s (match batch with Some b => b | None => [] end) n_chunks chunk_index;
+    chunk_holder_of_answer ps (scorer ps).
+Proof. exact src_score_chunk_is_model. Qed.
+Print Assumptions C06_model_is_source_score_chunk.
+
+(* in particular the model's chunk_holder (a scorer returning one score per handed plate) *)
+Theorem C06_model_is_source_chunk_holder : forall (scorer : scorer_t) (s : screen) (rng : option rng_t)
+    (n_chunks chunk_index : Z) (batch : list Z),
+  src_score_chunk (fun ps => map (fun p => (fst p, scorer (fst p) (snd p))) ps) s rng n_chunks chunk_index (Some batch)
+  = chunk_holder scorer s batch n_chunks chunk_index.
+Proof. exact src_score_chunk_chunk_holder. Qed.
+Print Assumptions C06_model_is_source_chunk_holder.
+
+(* ChunkedScoresHolder's methods, translated with its two numpy arrays as lists: a model holder h is represented by
+   holder_arrays h = (scores, plate_ids, current_index) = (map snd slots, map fst slots, current index);
+   `a[i] = v` past the end, argmin of an empty array and the ValueError of concat come from the translation /
+   the primitives; the declared size is not touched by these methods *)
+Theorem C06_model_is_source_add_score : forall (h : holder) (pid sc : Z),
+  src_add_score (map snd (h_slots h)) (map fst (h_slots h)) (Z.of_nat (h_cur h)) pid sc
+  = dor h' <- add_score h pid sc; Ok (holder_arrays h').
+Proof. exact src_add_score_is_model. Qed.
+Print Assumptions C06_model_is_source_add_score.
+
+Theorem C06_model_is_source_combine : forall (a b : holder),
+  src_combine (map snd (h_slots a)) (map fst (h_slots a)) (Z.of_nat (h_cur a))
+              (map snd (h_slots b)) (map fst (h_slots b))
+  = Ok (holder_arrays (h_combine a b)).
+Proof. exact src_combine_is_model. Qed.
+Print Assumptions C06_model_is_source_combine.
+
+Theorem C06_model_is_source_plate_id_with_minimum_score : forall (h : holder) (eligible : option (list Z)),
+  src_plate_id_with_minimum_score (map snd (h_slots h)) (map fst (h_slots h)) eligible = min_plate h eligible.
+Proof. exact src_plate_id_with_minimum_score_is_model. Qed.
+Print Assumptions C06_model_is_source_plate_id_with_minimum_score.
+
+Theorem C06_model_is_source_concat : forall hs : list holder, src_concat hs = h_concat hs.
+Proof. exact src_concat_is_model. Qed.
+Print Assumptions C06_model_is_source_concat.
 
 (* ---- np.array_split ---- *)
 Theorem C06_array_split_concat : forall (A : Type) (l : list A) (n : nat),
